@@ -130,6 +130,14 @@ CHECKS = {
             "package must leave it byte- and mtime-identical and succeed only on a match; in every mode writes stay inside package, core and ancestor __init__.py files.",
             "Faults are whole-operation ENOSPC errors raised before the operation (no torn writes); one fault per run; thorough adds two-run histories (crashed forced run, then non-force run).",
             "4 C10"),
+    "C09": ("model_checking", "exhaustive product of nondeterminism sources in separate interpreter processes + explicit-state BFS over generate/edit/delete histories with the real generator as transition function and a differential (forced-run-on-a-copy) oracle",
+            "(a) Each representative document is generated in its own process for every combination of PYTHONHASHSEED {0,1,2}, fresh vs warm process, two output roots and "
+            "two clocks (24 processes per document) and all trees must be byte-identical. (b) Per layout a breadth-first search over histories of depth<=3 of "
+            "gen(A|A+|B, force|noforce), edit, delete (states = project tree content hash, transitions = real generator runs) checks for every non-force run: if a forced "
+            "run on a copy of the same state leaves package+core unchanged the run must succeed and touch nothing, otherwise it must raise and touch nothing; and every "
+            "forced run without other clients must equal a generation into an empty project.",
+            "Hash seed, process history, wall clock and output root are the owned nondeterminism sources; id()-derived names are covered through fresh-vs-warm processes.",
+            "4 C09"),
 }
 
 NOT_YET = {}
